@@ -220,7 +220,8 @@ class _HarnessMixin:
 
     def _h_log(self, start, end, kw, extra=None):
         self.__dict__["_h_last_start"] = start
-        if self.H_FAIL_RUN is not None and self.H_FAIL_RUN == self.run_id:
+        if self.H_FAIL_RUN is not None and (self.run_id == self.H_FAIL_RUN or (
+                isinstance(self.H_FAIL_RUN, (list, tuple)) and self.run_id in self.H_FAIL_RUN)):
             raise InjectedFault(f"injected failure for run {self.run_id}")
         if self.H_LOG is not None:
             self.H_LOG.append((self.H_NODE["name"] if "name" in self.H_NODE else self.H_NODE["names"][0],
@@ -617,6 +618,12 @@ def build_classes(spec, log=None, fault=None, prefix="H"):
         else:
             attrs["data_kind"] = kinds[nm[0]]
             attrs["dtype"] = dtype_for(nm[0])
+            if opts.get("infer") and deps_of(n):
+                # dtype through infer_dtype(); data kind inferred from the first dependency where that is right
+                del attrs["dtype"]
+                attrs["infer_dtype"] = (lambda _d: (lambda self: _d))(dtype_for(nm[0]))
+                if kinds[deps_of(n)[0]] == kinds[nm[0]]:
+                    del attrs["data_kind"]
             attrs["save_when"] = SAVE_WHEN[opts.get("save_when", "ALWAYS")]
             attrs["rechunk_on_save"] = opts.get("rechunk_on_save", True)
         if n["kind"] == "source":
